@@ -115,6 +115,8 @@ def run_config(c, start, evs, host, spied, live_spy=False, live_trace=False, bui
                     sched.shutdown()
     except (mhsm.HsmTopologyException, Diverged) as ex:
         return per_step, None, type(ex).__name__
+    except Exception as ex:  # noqa  (anything else escaping start_at / dispatch is a difference from the plain processor as well)
+        return per_step, None, "%s: %s" % (type(ex).__name__, ex)
     return per_step, final, err
 
 
